@@ -68,7 +68,7 @@ class Tail(Edit):
 
 class Fn:
     def __init__(self, file, impl, name, ret=None, spec='', edits=(), generics_dyn=True, props=(), attrs='',
-                 external_body=False, sig_replace=None, trusted_reason=None, as_inherent=False):
+                 external_body=False, sig_replace=None, trusted_reason=None, as_inherent=False, impl_as=None, qual_as=None):
         self.file, self.impl, self.name, self.ret, self.spec = file, impl, name, ret, spec
         self.edits = list(edits)
         self.generics_dyn = generics_dyn
@@ -77,11 +77,15 @@ class Fn:
         self.external_body = external_body
         self.sig_replace = sig_replace  # list of (pattern, template) applied to the signature only (rule E2)
         self.trusted_reason = trusted_reason
+        self.impl_as = impl_as  # emit into `impl <impl_as>` as an inherent method (monomorphisation of a generic/trait impl, rule E9)
+        self.qual_as = qual_as
         self.hide = ()  # spec functions hidden inside this function's body (proof engineering only)
         self.as_inherent = as_inherent  # method of `impl Trait for T` emitted as inherent method of T (call syntax unchanged)
 
     @property
     def qual(self):
+        if self.qual_as:
+            return self.qual_as + '::' + self.name
         impl = self.impl
         if impl and self.as_inherent and ' for ' in impl:
             impl = impl.split(' for ')[-1].strip()
@@ -233,7 +237,9 @@ def find_impl(src, header):
         h = re.sub(r"<[^<>]*>", '', htxt)
         h = re.sub(r"<[^<>]*>", '', h)
         h = re.sub(r'\bwhere\b.*', '', h, flags=re.S)
-        if norm(h) == norm(header):
+        hh = re.sub(r"<[^<>]*>", '', header)
+        hh = re.sub(r"<[^<>]*>", '', hh)
+        if norm(h) == norm(hh):
             res.append((kw, j, src.pair[j], htxt.strip()))
     return res
 
@@ -402,6 +408,10 @@ class Extractor:
         while toks[i].text == '#':
             i = src.pair[i + 1] + 1
         is_trait_impl = htxt is not None and re.search(r'\bfor\b', htxt) is not None
+        if f.impl_as:
+            self.log('E9', what, 'impl ' + (htxt or ''), 'inherent method in impl ' + f.impl_as)
+            htxt = f.impl_as
+            is_trait_impl = False
         if is_trait_impl and f.as_inherent:
             self.log('E9', what, 'impl ' + htxt, 'inherent method of ' + htxt.split(' for ')[-1].strip())
             htxt = htxt.split(' for ')[-1].strip()
@@ -1044,4 +1054,4 @@ def build_unit(unit, repo, unit_dir, canary=False):
 def as_contract(f, reason):
     """the same function, used through its contract only (body not verified in this unit)"""
     return Fn(f.file, f.impl, f.name, ret=f.ret, spec=f.spec, generics_dyn=f.generics_dyn, external_body=True,
-              trusted_reason=reason, as_inherent=f.as_inherent, sig_replace=f.sig_replace)
+              trusted_reason=reason, as_inherent=f.as_inherent, sig_replace=f.sig_replace, impl_as=f.impl_as, qual_as=f.qual_as)
